@@ -103,7 +103,7 @@ def run_load(c: dict, root: str, baseline: set) -> dict:
     real["env_ok"] = sys.path is path0 and list(sys.path) == pathcopy and os.getcwd() == cwd0
     real["spec"] = repr(value)[:200]
     real["cwd"] = os.path.relpath(conc["cwd"], root)
-    real["text"], real["name"], real["path"] = conc["text"], conc["name"], conc["path"]
+    real["written"], real["name"], real["path"] = conc["text"], conc["name"], conc["path"]
     for k in [k for k in sys.modules if k not in baseline]:
         del sys.modules[k]
     return real
@@ -118,7 +118,7 @@ def main(root: str, inp: str, outp: str):
     griffe.visit("x01warm", filepath=Path("x01warm.py"), code=W.DATACLASS_SRC)
     griffe.load_extensions()
     baseline = set(sys.modules)
-    out = {"load": [], "dispatch": []}
+    out = {"load": [], "dispatch": [], "visit": []}
     for c in job.get("load", []):
         out["load"].append(run_load(c, root, baseline))
     if job.get("dispatch"):
@@ -129,6 +129,10 @@ def main(root: str, inp: str, outp: str):
             out["dispatch"].append(x01_dispatch.run_history(griffe, h, root))
             for k in [k for k in sys.modules if k not in baseline]:
                 del sys.modules[k]
+    if job.get("visit"):
+        from gverif.props import x01_visit  # noqa: PLC0415
+
+        out["visit"] = [x01_visit.run_case(griffe, c) for c in job["visit"]]
     with open(outp, "w") as fh:
         json.dump(out, fh)
 
